@@ -400,6 +400,18 @@ func genScript(g *Gen, sizeClass func() int) Script {
 			sc.Actions = append(sc.Actions, Action{Op: "reply", Continues: g.Pct(50), Params: g.maybeParams(sizeClass())})
 		}
 	}
+	// a reply under a generous deadline, and long pauses: a deadline armed for
+	// one reply must not cut a later one
+	if g.Pct(12) {
+		for i := range sc.Actions {
+			if sc.Actions[i].Op != "sleep" && sc.Actions[i].Op != "fail" && g.Pct(50) {
+				sc.Actions[i].DeadlineUs = 3600e6
+			}
+		}
+	}
+	if g.Pct(6) {
+		sc.Actions = append([]Action{{Op: "sleep", N: 7200e6}}, sc.Actions...)
+	}
 	// usually finish with a final reply
 	switch g.IntN(6) {
 	case 0:
